@@ -163,13 +163,19 @@ def is_loopback16(b):
 def header(tbl):
     return (HEADER0 + "Definition pfxtab : list pfx := %s.\n" % g_pfx_table(tbl) +
             "Definition trs : list (N * trk) := [(1, TrMin); (2, TrObfs4); (3, TrDtls); (4, TrPrefix pfxtab)].\n"
-            "Definition rpcfg0 (auth : bool) (enf : N) : rpcfg :=\n"
-            "  let sub := {| os_nil := false; os_v4 := true; os_hostbits := 8; os_prefix := 0 |} in\n"
+            "Definition pfxids : list Z := map x_id pfxtab.\n"
+            "Definition rpcfgx (auth : bool) (enf : N) (hostbits : N) (pid : Z) : rpcfg :=\n"
+            "  let sub := {| os_nil := false; os_v4 := true; os_hostbits := hostbits; os_prefix_id := pid |} in\n"
+            "  let ex := {| os_nil := false; os_v4 := true; os_hostbits := 8; os_prefix_id := 0%Z |} in\n"
             "  {| rp_transports := trs; rp_overrides := true; rp_auth := auth; rp_privkey_ok := true; rp_enforce := negb (enf =? 0);\n"
             "     rp_min_subnets := if enf =? 1 then [sub] else []; rp_min_weights := if enf =? 1 then 1 else 0;\n"
             "     rp_prefix_subnets := if enf =? 2 then [sub] else []; rp_prefix_weights := if enf =? 2 then 1 else 0;\n"
-            "     rp_exclusions := [sub] |}.\n")
+            "     rp_exclusions := [ex]; rp_prefix_ids := pfxids |}.\n"
+            "Definition rpcfg0 (auth : bool) (enf : N) : rpcfg := rpcfgx auth enf 8 0%Z.\n")
 
+# (enforce label) -> (enf, hostbits, prefix id)
+ENFORCE = {"": (0, 8, 0), "min": (1, 8, 0), "prefix": (2, 8, 0), "min-slash0": (1, 32, 0), "min-mapped64": None,
+           "prefix-id10": (2, 8, 10), "prefix-idrand": (2, 8, -1), "prefix-idmax": (2, 8, 2147483647), "prefix-id-2": (2, 8, -2)}
 
 # ================================================================ generators
 SECRET = bytes(range(1, 33))
@@ -383,6 +389,22 @@ def garbage_msgs(rng, n):
     return out
 
 
+MAX_BODY = 1 << 20
+
+
+def sized_wrapper(n):
+    """a well-formed registration of exactly n bytes (padding field)"""
+    k = n - 100
+    for _ in range(8):
+        w = base_wrapper(1, gen=1, rng=fixed_rng("sized"))
+        w["payload"]["padding"] = b"p" * k
+        b = pb.enc_wrapper(w)
+        if len(b) == n:
+            return b
+        k += n - len(b)
+    raise AssertionError("cannot size the wrapper")
+
+
 def pad33(w):
     """the API rejects bodies shorter than 33 bytes before looking at them: pad with an ignored field"""
     b = pb.enc_wrapper(w)
@@ -439,6 +461,42 @@ def gen_station(ctx, corpus, garbage):
             for v6 in (False, True):
                 cases.append({"op": "newreg", "msg": pb.enc_wrapper(w).hex(), "v4": True, "v6": True, "geofail": False, "incv6": v6})
                 meta.append(("newreg", lbl))
+    # the worker body: parseRegMessage + ingestRegistration, liveness / detector / peer API scripted
+    wk = [x for x in corpus if x[0].startswith(("base/", "w-", "a-", "fam-", "tr-", "src", "r-", "secret", "gen-"))]
+    for i, (lbl, w) in enumerate(thin(ctx, wk, 3)):
+        msg = pb.enc_wrapper(w).hex()
+        for live in (False, True):
+            cases.append({"op": "worker", "msg": msg, "v4": True, "v6": True, "geofail": False, "live": live, "share": False, "peer": 200, "wait_ms": 0})
+            meta.append(("worker", lbl))
+    shared_n = 0
+    for lbl, w in wk:
+        # registrations that came from the detector are shared with the peer station's API, whose answer is attacker-influenced
+        if lbl.startswith(("base/t1/lv4", "base/t4/lv4", "src1", "w-nopayload", "a-16/t1/g1")) and shared_n < 40:
+            w2 = dict(w)
+            w2["source"] = 1
+            for peer in (200, 500, 0):
+                shared_n += 1
+                cases.append({"op": "worker", "msg": pb.enc_wrapper(w2).hex(), "v4": True, "v6": True, "geofail": False, "live": False,
+                              "share": True, "peer": peer, "wait_ms": 3000 if lbl.startswith(("base/", "src1")) else 40})
+                meta.append(("worker-share", lbl))
+    for lbl, b in garbage[:25]:
+        cases.append({"op": "worker", "msg": b.hex(), "v4": True, "v6": True, "geofail": False, "live": False, "share": False, "peer": 200, "wait_ms": 0})
+        meta.append(("worker", lbl))
+    # ingestRegistration on hand-built registrations: every combination of nil fields
+    for keys in (True, False):
+        for ph in (None, "", "c07abe01", "20010db8000000000000000000000001", "0102030405"):
+            for src in (None, 0, 1, 2, 3):
+                for tr in (1, 4, 77):
+                    for flags in ((False, False, True, False), (True, True, False, True), (False, True, True, True)):
+                        presc, live, has_c2s, share = flags
+                        raw = {"nil": False, "keys": keys, "phantom": ph or "", "has_phantom": ph is not None, "source": src or 0, "has_source": src is not None,
+                               "transport": tr, "prescanned": presc, "has_c2s": has_c2s, "c2s_v4": True, "covert": "192.0.2.9:443" if tr != 4 or keys else ""}
+                        cases.append({"op": "rawreg", "raw": raw, "v4": True, "v6": True, "geofail": False, "live": live, "share": share, "peer": 200, "wait_ms": 10})
+                        meta.append(("rawreg", "k%d" % keys))
+    cases.append({"op": "rawreg", "raw": {"nil": True, "keys": False, "phantom": "", "has_phantom": False, "source": 0, "has_source": False, "transport": 1,
+                                          "prescanned": False, "has_c2s": False, "c2s_v4": False, "covert": ""},
+                  "v4": True, "v6": True, "geofail": False, "live": False, "share": False, "peer": 200, "wait_ms": 0})
+    meta.append(("rawreg", "nil"))
     # ParseParams / GetDstPort of every transport on every Any variant and library version
     for tr in (1, 2, 3, 4):
         for lv in ((0, 2, 3, 4, 2 ** 32 - 1) if ctx.tier != "quick" else (2, 3, 4)):
@@ -519,6 +577,29 @@ def post_station(ctx, cases, meta, res):
             oc = g_oclass(r["out"], r["ecode"] if r["err"] else 0) if not (r["err"] and not r["ecode"]) else "(OErr 0)"
             terms.append("ANewReg (%s, %s, %s, %s, %s)" % (cfg, orc, g_wrapper_rec(r["view"]), gbool(c["incv6"]), oc))
             kind = "newreg/" + ("panic" if r["out"] == "panic" else ("err%d" % r["ecode"] if r["err"] else "ok"))
+        elif op in ("worker", "worker-share"):
+            crash_check(ctx, "ingest worker (parseRegMessage+ingestRegistration)", lbl.split("/")[0], r["out"], r["detail"], c)
+            cfg = "{| sc_v4 := true; sc_v6 := true; sc_transports := trs |}"
+            orc = "{| so_sel4 := %s; so_sel6 := %s; so_geo_ok := true |}" % (g_sel(r["sel4"]), g_sel(r["sel6"]))
+            io = "{| io_blocklisted := false; io_exists := false; io_covert_ok := %s; io_live := %s; io_share := %s |}" % (
+                gbool(r["covert_ok"]), gbool(c["live"]), gbool(c["share"]))
+            oc = "(OErr 0)" if (r["err"] and r["out"] == "ret") else g_oclass(r["out"])
+            terms.append("AWorker (%s, %s, %s, %s, %s, %s, %s)" % (cfg, orc, g_view(r["view"]), io, oc, gN(r["announced"]), gN(r["shares"])))
+            kind = op + "/" + ("panic" if r["out"] != "ret" else ("err" if r["err"] else "announced%d%s" % (r["announced"], "/shared" if r["shares"] else "")))
+            if c["share"]:
+                kind += "/peer%d" % c["peer"]
+        elif op == "rawreg":
+            crash_check(ctx, "ingestRegistration", lbl, r["out"], r["detail"], c)
+            x = c["raw"]
+            ir = ("{| ir_nil := %s; ir_keys := %s; ir_phantom := %s; ir_source := %s; ir_transport_known := %s; ir_prescanned := %s; "
+                  "ir_has_c2s := %s; ir_c2s_v4 := %s; ir_connecting := None |}" % (
+                      gbool(x["nil"]), "(Some [])" if x["keys"] else "None", g_ohex(x["phantom"]) if x["has_phantom"] else "None",
+                      g_oN(x["source"]) if x["has_source"] else "None", gbool(x["transport"] in (1, 2, 3, 4)), gbool(x["prescanned"]),
+                      gbool(x["has_c2s"]), gbool(x["c2s_v4"])))
+            io = "{| io_blocklisted := false; io_exists := false; io_covert_ok := %s; io_live := %s; io_share := %s |}" % (
+                gbool(r["covert_ok"]), gbool(c["live"]), gbool(c["share"]))
+            terms.append("ARawReg (%s, %s, %s, %s)" % (ir, io, g_oclass(r["out"]), gbool(r["announced"] > 0)))
+            kind = "rawreg/" + ("panic" if r["out"] != "ret" else ("announced" if r["announced"] else "dropped"))
         elif op == "params":
             crashed = crash_check(ctx, "ParseParams", "t%d" % c["transport"], r["out"], r["detail"], c)
             crashed = crash_check(ctx, "GetDstPort", "t%d" % c["transport"], r["out2"] or "ret", "", c) or crashed
@@ -533,7 +614,40 @@ def post_station(ctx, cases, meta, res):
                                                            g_oclass(r["out"], r["ecode"]), gN(r["port"])))
             kind = "dstport/t%d/%s" % (c["transport"], "err" if r["ecode"] else "ok")
         idx.append(k)
-        ctx.count((op, sorted(c.items())), nontrivial=True, kind=kind)
+        ctx.count((op, sorted((a, str(b)) for a, b in c.items())), nontrivial=True, kind=kind)
+    return terms, idx
+
+
+# ---------------------------------------------------------------- dtls.Connect: use of the client's parameters
+def gen_dtlsconn(ctx):
+    cases = []
+    addrs = [None, {}, {"ip": b""}, {"ip": b"\x0a\x00\x00\x01", "port": 4000}, {"ip": b"\x01\x02\x03\x04\x05", "port": 70000},
+             {"ip": bytes(16), "port": 0}, {"ip": bytes([0x20, 1]) + bytes(14), "port": 65535}, {"ip": bytes(17)}, {"port": 1}]
+    for ph in ("c07abe01", "20010db8000000000000000000000001"):
+        for a4 in addrs:
+            for a6 in (addrs if a4 in (None, addrs[3]) else [None, addrs[6]]):
+                d = {"rand": 1}
+                if a4 is not None:
+                    d["src4"] = a4
+                if a6 is not None:
+                    d["src6"] = a6
+                cases.append({"pkind": "dtls", "pval": pb.enc_dtls(d).hex(), "phantom": ph, "ttype": 3})
+        for k in ("nil", "gen", "pref"):
+            cases.append({"pkind": k, "pval": "", "phantom": ph, "ttype": 3})
+        cases.append({"pkind": "dtls", "pval": "", "phantom": ph, "ttype": 1})
+    return cases
+
+
+def post_dtlsconn(ctx, cases, res):
+    terms, idx = [], []
+    for k, (c, r) in enumerate(zip(cases, res)):
+        crash_check(ctx, "dtls.Connect", c["pkind"], r["out"], r["detail"], c)
+        pv = {"nil": "PNil", "dtls": "(PDtls (Some {| d_rand := None |}))", "gen": "(PGen (Some {| g_rand := None |}))",
+              "pref": "(PPref (Some {| p_id := None; p_rand := None |}))"}[c["pkind"]]
+        oc = "OPanic" if r["out"] == "panic" else ("(OErr %d)" % r["ecode"] if r["ecode"] else ("OOk" if r["dnat_n"] >= 1 else "(OErr 0)"))
+        terms.append("ADtlsConn (%s, %s, %s)" % (gbool(c["ttype"] == 3), pv, oc))
+        idx.append(k)
+        ctx.count(sorted(c.items()), nontrivial=True, kind="dtlsconn/" + ("panic" if r["out"] != "ret" else ("err%d" % r["ecode"] if r["ecode"] else "dnat")))
     return terms, idx
 
 
@@ -550,7 +664,7 @@ def gen_regproc(ctx, corpus):
                     cases.append({"op": "c2sw", "msg": msg, "nil": False, "auth": auth, "enforce": "", "addr_nil": addr_nil})
                     meta.append(("c2sw", lbl))
         if lbl.startswith(("base/", "fam-", "tr-", "w-")):
-            for enf in ("min", "prefix"):
+            for enf in ("min", "prefix", "min-slash0", "prefix-id10", "prefix-idrand", "prefix-idmax", "prefix-id-2"):
                 cases.append({"op": "bdreq", "msg": msg, "nil": False, "auth": True, "enforce": enf})
                 meta.append(("bdreq-enf", lbl))
     for op in ("bdreq", "c2sw"):
@@ -567,15 +681,17 @@ def post_regproc(ctx, cases, meta, res):
         view = "None" if c["nil"] else g_view(r["view"])
         ec = r["ecode"] if r["err"] else 0
         oc = "(OErr 0)" if (r["err"] and not ec and r["out"] == "ret") else g_oclass(r["out"], ec)
-        enf = {"": 0, "min": 1, "prefix": 2}[c["enforce"]]
+        enf, hostbits, pid = ENFORCE[c["enforce"]]
         if op.startswith("bdreq"):
             crash_check(ctx, "processBdReq", lbl.split("/")[0], r["out"], r["detail"], c)
             if enf:
                 # the override draws are fixed by the configuration (one subnet, 100 %): compare the outcome class
-                terms.append("ABdReqE (rpcfg0 true %s, %s, %s, %s)" % (gN(enf), g_seltab(r["sel"]), view, oc))
+                terms.append("ABdReqE (rpcfgx true %s %s %s, %s, %s, %s)" % (gN(enf), gN(hostbits), gZ(pid), g_seltab(r["sel"]), view, oc))
             else:
                 terms.append("ABdReq (rpcfg0 true 0, %s, %s, %s, %s, %s, %s)" % (g_seltab(r["sel"]), view, oc, gbool(r["has4"]), gbool(r["has6"]), gN(r["port"])))
             kind = op + "/" + ("panic" if r["out"] != "ret" else ("err%d" % ec if r["err"] else "ok"))
+            if enf and r["out"] == "ret" and not r["err"]:
+                kind += "/" + c["enforce"]
         else:
             crash_check(ctx, "processC2SWrapper", lbl.split("/")[0], r["out"], r["detail"], c)
             terms.append("AC2sw (rpcfg0 %s 0, %s, %s)" % (gbool(c["auth"]), view, oc))
@@ -628,6 +744,9 @@ def gen_api(ctx, corpus, garbage):
                 add("xff-nopayload", handler, nopl, xff=xff, remote=remote, ccgen=1000)
         for remote in REMOTES:
             add("remote", handler, base, remote=remote, ccgen=None)
+        for size in (MAX_BODY - 1, MAX_BODY, MAX_BODY + 1):
+            add("body-size", handler, sized_wrapper(size), ccgen=None)
+        add("body-size", handler, sized_wrapper(MAX_BODY + 1), chunked=True, ccgen=None)
         for body in (base, nopl):
             for ccgen in (None, 0, 1, 957, 958, 2 ** 32 - 1):
                 add("ccgen", handler, body, ccgen=ccgen)
@@ -662,8 +781,8 @@ def post_api(ctx, cases, res):
         g_xff = glist([[parse_ip16(it) for it in v.split(",")] for v in g["xff"]], lambda items: glist(items, lambda b: gopt(b, hexs)))
 
         def req(remote16, clen):
-            return ("{| h_post := %s; h_remote := %s; h_remote_loopback := %s; h_xff := %s; h_clen := %s; h_read_ok := true; h_body := %s |}"
-                    % (gbool(g["method"] == "POST"), gopt(remote16, hexs), gbool(is_loopback16(remote16)), g_xff, gZ(clen), g_view(r["view"])))
+            return ("{| h_post := %s; h_remote := %s; h_remote_loopback := %s; h_xff := %s; h_clen := %s; h_blen := %s; h_read_ok := true; h_body := %s |}"
+                    % (gbool(g["method"] == "POST"), gopt(remote16, hexs), gbool(is_loopback16(remote16)), g_xff, gZ(clen), gZ(body_len), g_view(r["view"])))
 
         common = "%s, rpcfg0 true 0, %s, %s, %s" % (gbool(g["handler"] == "bidi"), g_seltab(r["sel"]), gbool(not g["zmqfail"]), g_oN(g["ccgen"]))
         # run 1: real server — RemoteAddr is loopback, ContentLength comes from the header (-1 when chunked)
@@ -711,7 +830,7 @@ def post_dnsproc(ctx, cases, meta, res):
 # ---------------------------------------------------------------- first flight: min / prefix
 def gen_prefix(ctx, tbl):
     rng = fixed_rng("prefix")
-    cases = [{"op": "dump"}]
+    cases = [{"op": "dump"}, {"op": "newfile"}] + [{"op": "tryfromid", "id": i} for i in (-2147483648, -2, -1, 0, 1, 9, 10, 11, 2147483647)]
     regsets = [[], [{"is_prefix": True, "pkind": "pref", "pid": 0}]]
     lens = [0, 1, 5, 6, 16, 31, 32, 33, 63, 64, 65, 69, 70, 71, 79, 80, 81, 84, 85, 86, 100, 300]
 
@@ -743,6 +862,16 @@ def post_prefix(ctx, cases, res):
     tbl = res[0]["table"]
     for k, (c, r) in enumerate(zip(cases, res)):
         if c["op"] == "dump":
+            continue
+        if c["op"] == "newfile":
+            crash_check(ctx, "prefix.Default(keys, file)", "prefix-file-configured", r["out"], r["detail"], c)
+            ctx.count(("newfile",), nontrivial=True, kind="prefix/newfile/" + ("panic" if r["out"] != "ret" else "ok%d" % r["used"]))
+            continue
+        if c["op"] == "tryfromid":
+            crash_check(ctx, "prefix.TryFromID+overridePrefix", "id%d" % c["id"], r["out"], r["detail"], c)
+            terms.append("ATryId (pfxids, %s, %s, %s)" % (gZ(c["id"]), g_oclass(r["out"]), gbool(not r["ecode"])))
+            idx.append(k)
+            ctx.count(("tryfromid", c["id"]), nontrivial=True, kind="tryfromid/" + ("panic" if r["out"] != "ret" else ("err" if r["ecode"] else "ok")))
             continue
         crash_check(ctx, "%s.WrapConnection" % c["op"], "len%d" % (len(r["data"]) // 2), r["out"], r["detail"], c)
         oc = g_oclass(r["out"], r["ecode"])
@@ -1170,9 +1299,13 @@ REQUIRED_KINDS = [
     "ingest/ok0", "ingest/ok1", "ingest/ok2", "ingest/err1", "ingest/err3", "ingest/err5", "ingest/err6", "ingest/err7", "ingest/err9", "ingest/err15", "ingest/err16",
     "newreg/panic", "newreg/ok", "newreg/err5", "newreg/err8", "newreg/err16",
     "params/t1/ok", "params/t1/err", "params/t4/ok", "params/t4/err", "params/t3/ok", "params/t3/err", "dstport/t1/err", "dstport/t4/err", "dstport/t4/ok",
-    "bdreq/ok", "bdreq/err10", "bdreq/err3", "bdreq/err5", "bdreq/err6", "bdreq/err7", "bdreq-enf/ok", "c2sw/ok", "c2sw/err10", "c2sw/err11",
+    "bdreq/ok", "bdreq/err10", "bdreq/err3", "bdreq/err5", "bdreq/err6", "bdreq/err7", "bdreq-enf/ok/min", "bdreq-enf/ok/prefix", "bdreq-enf/ok/min-slash0", "bdreq-enf/ok/prefix-id10", "bdreq-enf/ok/prefix-idrand",
+    "bdreq-enf/ok/prefix-idmax", "bdreq-enf/ok/prefix-id-2", "c2sw/ok", "c2sw/err10", "c2sw/err11",
     "api/uni/204", "api/uni/400", "api/uni/405", "api/uni/500", "api/bidi/200", "api/bidi/400", "api/bidi/405", "api/bidi/500",
     "dnsproc/success", "dnsproc/fail", "dnsproc/err",
+    "worker/announced0", "worker/announced1", "worker/announced2", "worker/err", "worker-share/announced2/shared/peer200",
+    "worker-share/announced2/shared/peer500", "worker-share/announced2/shared/peer0", "rawreg/announced", "rawreg/dropped",
+    "dtlsconn/dnat", "dtlsconn/err6", "dtlsconn/err21", "tryfromid/ok", "tryfromid/err", "prefix/newfile/ok10",
     "min/found", "min/err20", "min/err21", "prefix/found", "prefix/err20", "prefix/err21", "prefix/err22", "prefix/err23",
     "obfs4/err20", "obfs4/err21", "obfs4/err24", "markmac/panic", "markmac/found", "markmac/none",
     "dns/parse-0/kind-2", "dns/parse-0/kind-1", "dns/parse-0/kind-0", "dns/parse-30/kind-1", "dns/parse-31/kind-1", "dns/parse-32/kind-1",
@@ -1233,6 +1366,7 @@ def run_(ctx):
     dp_cases, dp_meta = gen_dnsproc(ctx, corpus, garbage)
     ob_cases = gen_obfs4(ctx)
     dns_pkts = gen_dns(ctx)
+    dc_cases = gen_dtlsconn(ctx)
     pf_extra = []
     # cases carried by a replay file (the enumeration itself is deterministic, so re-running the check replays it anyway)
     for f in (ctx.replay or {}).get("failures", []):
@@ -1304,10 +1438,11 @@ def run_(ctx):
         "obfs4": lambda: go_run(ctx, "pkg/transports/wrapping/obfs4", "obfs4", "obfs4_driver_test.go", "TestVerifC11Obfs4", ob_cases),
         "dns": lambda: go_run(ctx, "pkg/registrars/dns-registrar/responder", "responder", "responder_driver_test.go", "TestVerifC11Responder",
                               [{"pkt": p.hex(), "has_plain": pl is not None, "plain": (pl or b"").hex(), "resplen": rl} for _, p, pl, rl in dns_pkts]),
+        "dtlsconn": lambda: go_run(ctx, "pkg/transports/connecting/dtls", "dtls", "dtls_driver_test.go", "TestVerifC11DtlsConnect", dc_cases),
         "prefix-dump": lambda: go_run(ctx, "pkg/transports/wrapping/prefix", "prefix", "prefix_driver_test.go", "TestVerifC11Prefix", [{"op": "dump"}]),
     }
     results = {}
-    with ThreadPoolExecutor(max_workers=7) as ex:
+    with ThreadPoolExecutor(max_workers=9) as ex:
         futs = {k: ex.submit(f) for k, f in jobs.items()}
         # the prefix run proper depends on the dumped table
         rc, out, res = futs["prefix-dump"].result()
@@ -1358,6 +1493,9 @@ def run_(ctx):
     res = ok("obfs4", len(ob_cases))
     if res:
         add("obfs4", post_obfs4(ctx, ob_cases, res), ob_cases)
+    res = ok("dtlsconn", len(dc_cases))
+    if res:
+        add("dtlsconn", post_dtlsconn(ctx, dc_cases, res), dc_cases)
     res = ok("dns", len(dns_pkts))
     if res:
         add("dns", post_dns(ctx, dns_pkts, res), dns_pkts)
@@ -1366,7 +1504,8 @@ def run_(ctx):
     ctx.cov["timing_s"] = TIMES
     if tbl is None:
         return
-    hdr = header(tbl) + "Lemma pfxtab_wf : tbl_wf pfxtab = true. Proof. vm_compute. reflexivity. Qed.\n"
+    hdr = header(tbl) + ("Lemma pfxtab_wf : tbl_wf pfxtab = true. Proof. vm_compute. reflexivity. Qed.\n"
+                         "Lemma pfxids_contiguous : ids_contiguous pfxids = true. Proof. vm_compute. reflexivity. Qed.\n")
     import time
     t0 = time.time()
     mm = ctx.coq_mismatches("all", hdr, terms, "chk", shard=max(150, len(terms) // 15 + 1))
